@@ -134,6 +134,22 @@ class Closures(Stage):
                     break
                 if spec['args'][i][0] == 'a' and spec['args'][i][1]:
                     after_array = True
+        # as reported: once the message went through a connection (resolution against the - here absent - descriptions), a nil
+        # object argument still carries the interface the closure declares for it
+        if not res.discs and any(e[0] == 'Null' and e[1] is not None for e in exp):
+            from core import ConnectionManager
+            cm = ConnectionManager()
+            conn = cm.open_connection(0.0, cid, None)
+            try:
+                conn.message(msg)
+                again = [describe(a) for a in msg.args]
+                for i, (g, e) in enumerate(zip(again, exp)):
+                    if e[0] == 'Null' and e[1] is not None and g != e:
+                        res.bad('arg:Null-interface-lost-when-reported', 'signature %r argument %d declared %r, reported %r' % (spec['signature'], i, e, g))
+                        break
+                res.count('reported-nil-interfaces-checked')
+            except (RuntimeError, AssertionError):
+                res.count('resolution-refused(skipped)')
         res.nontrivial = classes(spec, res)
         res.sample = spec
         return res
@@ -142,7 +158,7 @@ class Closures(Stage):
 # ------------------------------------------------------------------------------------------------
 # differential: the same history through GDB mode (stand-in) and through log mode
 
-PROFILE = dict(reuse=0.6, weights=dict(repeat=4, newer=4, delete=16, bind=10, message=46, server_event=10, sync=4, enum=8, title=4, retype=12, arrays=12, server_retype=8))
+PROFILE = dict(reuse=0.6, weights=dict(repeat=4, newer=4, delete=16, bind=10, message=46, server_event=10, sync=4, enum=8, title=4, retype=12, arrays=12, server_retype=8, twins=8))
 ARR = re.compile(r'\[(?:\.\.\.|[^\[\]\'"]*)\]')      # array contents (elements may carry enum labels) are not retained by the print-out
 LIFE = re.compile(r' after -?\d+\.\d{4}s')
 
